@@ -59,14 +59,20 @@ def gen_foreign(rng):
             raw = text.encode(enc or 'utf-8')
             value = val
         elif kind == 'text':
+            other = '\n' if dos else '\r\n'
             text = rng.choice(['hello', 'a' + nlt + ' b', '#.change:', '  lead', '\xe9t\xe9' + nlt + nlt + 'x',
-                               '@@ -1 +1 @@', 'tab\there']) + nlt
+                               '@@ -1 +1 @@', 'tab\there',
+                               # mixed line endings: the FIRST line decides when line_endings is omitted
+                               'first' + nlt + 'second' + other + 'third', 'x' + nlt + other + 'y' + other,
+                               'cr\ronly' + nlt + 'z\r']) + nlt
             if rng.random() < 0.3:
                 opts['mimetype'] = rng.choice(['text/plain', 'text/markdown'])
             raw = text.encode(enc or 'utf-8')
             value = text if enc else raw
         else:
-            body = rng.choice([b'-a', b'+b\x00', b'@@ -1 +1 @@', b'--- a\n+++ b', b'\xff\xfe']) + nl
+            onl = specdoc.nl0(enc, not dos)
+            body = rng.choice([b'-a', b'+b\x00', b'@@ -1 +1 @@', b'--- a\n+++ b', b'\xff\xfe',
+                               b'--- a' + nl + b'+++ b' + nl + b'-old' + onl + b'+new', b'x' + nl + b'y' + onl]) + nl
             raw = body
             value = body
             if rng.random() < 0.3:
